@@ -5,8 +5,9 @@ import McpModel.Sessions.BridgeOps8
 
 `monitor_accepts_model`: for every configuration with the repaired publication (`publishChecks`, F20) and
 EVERY list of harness operations — POST (init / badinit / ping / notif / slow) with no, minted, never-minted
-ids by any user, `postx`, GET, DELETE, other methods, release / abandon of parked handlers, clock ticks of
-any length, event-store fault scripts, server-side closes; each operation is the label list that the real
+ids by any user, `postx`, POSTs whose body arrives in pieces (`postb` / `body`: in progress from the arrival of
+their headers, without a handler until the last piece), GET, DELETE, other methods, release / abandon of parked
+handlers, clock ticks of any length, event-store fault scripts, server-side closes; each operation is the label list that the real
 handler executes for it, followed by the internal labels enabled at quiescence — the typed monitor
 (`runMon`) reports nothing on the model's own observations (`modelTrace`), and the end-of-case clause is
 silent on the model's final record (`monEnd_accepts_model`).
